@@ -95,6 +95,12 @@ CLAIMED["C17"] = dict(
    text="Generated sources (leading/interior/trailing blank lines, tabs, wide characters, with/without final newline) are rendered under generated lexer/option/width combinations; each output line is split into marker, number and text and compared with (start_line + i, source line i) for the selected range, at wide widths exactly and at narrow widths for the numbers; generated modules that raise at a chosen line are imported and rendered through Traceback.from_exception, and every frame must mark the line linecache reports.",
    note="CRLF-free sources; line_range only together with line numbers; trailing blank lines not compared; temp modules are written outside /repo and /verif and removed per case.",
    ref="5 C17")
+CLAIMED["C07"] = dict(
+   technique="Hypothesis property test over tables with unique-character cells: rectangle / expand-exact / row-integrity / per-column containment predicates read off the rendered characters",
+   level="exploration",
+   text="Generated tables (all listed table and column options, multi-line and wide-character cells, nested panels) are rendered at widths from the structural minimum; because every cell character is unique, the check decides exactly whether body lines form a rectangle of the right width, rows keep to their own lines in insertion order, and every character of a fold column appears once, in order, inside a cell range disjoint from the other columns; title/caption may only surround the body.",
+   note="ratio >= 1, max_width >= 2, table width <= available width; losses in columns the width solver allotted less than their structural need are known findings F1/F4 (classified with the table's own column-width calculation).",
+   ref="5 C07")
 NOT_YET = {}
 props = [json.loads(l) for l in open(os.path.join(V, "properties.jsonl"))]
 checks = []
